@@ -86,6 +86,22 @@ impl Profile {
             litdef_p: 0.12,
         }
     }
+    /// Clauses over atomic predicates of integer variables with wider domains, plus a few linear
+    /// constraints: exercises the nogood propagator's watchers for all four predicate kinds.
+    pub fn clause_heavy() -> Profile {
+        let mut p = Profile::mixed();
+        p.kinds = vec![("predicate_clause", 6), ("lin_le", 2), ("lin_ne", 1), ("bin_ne", 1), ("bin_lt", 1)];
+        p.nint = (2, 4);
+        p.nbool = (0, 1);
+        p.ncons = (2, 6);
+        p.width = 7;
+        p.lo = (-1, 1);
+        p.sparse_p = 0.15;
+        p.reif_p = 0.0;
+        p.litdef_p = 0.0;
+        p.max_space = 5_000.0;
+        p
+    }
     pub fn only(kinds: &[&'static str]) -> Profile {
         let mut p = Profile::mixed();
         p.kinds = kinds.iter().map(|k| (*k, 1)).collect();
